@@ -237,7 +237,7 @@ func (st *State) heapGet(name string, sort Sort) Term {
 	}
 	st.eng().heapSorts[name] = sort
 	vn := name + "!0"
-	if st.epoch > 0 && !st.epochExcept[name] && !strings.HasPrefix(name, "NC_") && !strings.HasPrefix(name, "NCF_") {
+	if st.epoch > 0 && !st.epochExcept[name] && !strings.HasPrefix(name, "NC_") && !strings.HasPrefix(name, "NCF_") && !strings.HasPrefix(name, "NCR_") && !strings.HasPrefix(name, "NCS_") {
 		vn = fmt.Sprintf("%s!e%d", name, st.epoch)
 	}
 	t := st.eng().constNamed(vn, sort)
